@@ -165,3 +165,100 @@ func each(g func(float64)) {
 		g(t)
 	}
 }
+
+// want:AM the farther collision wins.
+func (s *shape) FirstFlipped(r *model3d.Ray) (model3d.RayCollision, bool) {
+	var res model3d.RayCollision
+	var ok bool
+	s.inner.RayCollisions(r, func(rc model3d.RayCollision) {
+		if !ok || rc.Scale > res.Scale {
+			res = rc
+			ok = true
+		}
+	})
+	return res, ok
+}
+
+// want:AM no "nothing found yet" disjunct.
+func (s *shape) FirstNoFlag(r *model3d.Ray) (model3d.RayCollision, bool) {
+	var res model3d.RayCollision
+	var ok bool
+	s.inner.RayCollisions(r, func(rc model3d.RayCollision) {
+		if rc.Scale < res.Scale {
+			res = rc
+			ok = true
+		}
+	})
+	return res, ok
+}
+
+// clean:AM both spellings used in the repository.
+func (s *shape) FirstGood(r *model3d.Ray) (model3d.RayCollision, bool) {
+	var res model3d.RayCollision
+	var ok bool
+	var scale float64
+	s.inner.RayCollisions(r, func(rc model3d.RayCollision) {
+		if res.Scale >= rc.Scale || !ok {
+			res = rc
+			ok = true
+		}
+		if !ok || rc.Scale < scale {
+			scale = rc.Scale
+			res = rc
+			ok = true
+		}
+	})
+	return res, ok
+}
+
+// want:A3.MEAN early stop: the current sample is in the sum but not counted.
+func MeanEarlyStop(samples []model3d.Coord3D, max int) (model3d.Coord3D, int) {
+	var sum model3d.Coord3D
+	n := 0
+	for n = 0; n < max; n++ {
+		sum = sum.Add(samples[n])
+		if samples[n].X > 10 {
+			break
+		}
+	}
+	return sum.Scale(1 / float64(n)), n
+}
+
+// want:A3.MEAN the in-loop estimate (one sample ahead of its divisor) is returned.
+func MeanReturnsEstimate(samples []model3d.Coord3D, max int) model3d.Coord3D {
+	var sum model3d.Coord3D
+	n := 0
+	for n = 0; n < max; n++ {
+		sum = sum.Add(samples[n])
+		if n < 2 {
+			continue
+		}
+		mean := sum.Scale(1 / float64(n))
+		if mean.X < 1 {
+			return mean
+		}
+	}
+	return sum.Scale(1 / float64(n))
+}
+
+// clean:A3.MEAN the repository's idioms: counted early exit, exact loop.
+func MeanGood(samples []model3d.Coord3D, max, k int) (model3d.Coord3D, model3d.Coord3D) {
+	var sum model3d.Coord3D
+	n := 0
+	for n = 0; n < max; n++ {
+		sum = sum.Add(samples[n])
+		if n < 2 {
+			continue
+		}
+		estimate := sum.Scale(1 / float64(n))
+		if estimate.X < 1 {
+			n++
+			break
+		}
+	}
+	var sum2 model3d.Coord3D
+	for i := 0; i < k; i++ {
+		sum2 = sum2.Add(samples[i])
+	}
+	return sum.Scale(1 / float64(n)), sum2.Scale(1 / float64(k))
+}
